@@ -18,7 +18,9 @@ def steps_upper(cfg, prog):
 def gen_cfg(rng):
     if rng.random() < 0.5:
         mx = rng.choice([1, 2, 3, 5])
-        return {"kind": "token", "max": mx, "initial": rng.randint(0, mx)}
+        # 12 %: an initial balance above the maximum (the constructor clamps it to the burst capacity)
+        ini = rng.randint(0, mx) if rng.random() < 0.88 else mx + rng.randint(1, 3)
+        return {"kind": "token", "max": mx, "initial": ini}
     mx = rng.choice([2, 3, 4, 8, 10])
     f = rng.choice([(1, 2), (1, 2), (3, 4), (1, 4), (1, 1), (0, 1)])
     mn = rng.randint(0, mx) if rng.random() < 0.93 else mx + rng.randint(1, 6)   # 7 %: inverted range (rejected at construction)
@@ -163,6 +165,9 @@ def mon_conservation(case, lines, meta):
             return "AIMD limit %d outside [%d,%d]" % (lim, mn, mx)
     else:
         cost, amount, initial, mx = 1, 1, int(cfg["initial"]), int(cfg["max"])
+        if initial > mx and bal > mx:
+            return "token bucket built with initial_tokens %d above max_tokens %d holds %d tokens: the balance exceeds its configured maximum" % (initial, mx, bal)
+        initial = min(initial, mx)      # what the bucket was funded with: never more than its burst capacity
     if granted * cost + bal > initial + deposits * amount:
         return "granted %d x cost %d + balance %d > initial %d + deposits %d x amount %d" % (granted, cost, bal, initial, deposits, amount)
     if bal > mx:
@@ -187,7 +192,7 @@ def mon_linearizable(case, lines, meta):
         if len(res) != len(progs[t]):
             return "thread %d: %d results for %d operations" % (t, len(res), len(progs[t]))
         seqs.append(list(zip(progs[t], res)))
-    mx, init = int(cfg["max"]), int(cfg["initial"])
+    mx, init = int(cfg["max"]), min(int(cfg["initial"]), int(cfg["max"]))
     seen = set()
 
     def dfs(pos, tokens):
